@@ -122,90 +122,58 @@ Proof.
   - intros i n m. rewrite En. apply P.
 Qed.
 
-Theorem load_parsed_j3 m filename root st w r w' :
-  first_file w m \/ merge_ok ->
-  Core w -> J3 T w -> LoadRecords.linked T root -> et_new T (autosar_element T) = Val (StrictValidDef.e_type root) ->
-  load_parsed T LATEST name_definition_ref m filename root st w = Val (r, w') -> J3 T w'.
-Proof.
-  intros Hmode C (B & HT & P) HL Hroot H. unfold load_parsed in H.
-  apply wbind_inv in H as [(w0 & wx & H1 & H) | (e & H1 & _)]; apply wget_inv in H1 as (E1 & ->); [|discriminate E1].
-  injection E1 as ->.
-  apply wbind_inv in H as [(t & w1 & H1 & H) | (e & H1 & _)].
-  2:{ destruct (install_typed T root HL PNone w _ _ ltac:(intros ? ?; discriminate) H1 B HT) as (_ & _ & _ & _ & t & [=] & _). }
-  destruct (install_typed T root HL PNone w _ _ ltac:(intros ? ?; discriminate) H1 B HT)
-    as (B1 & T1 & F1 & E1 & t' & [= <-] & Eid & L1 & nr & Hnr & Nnr & Tnr & Pnr).
-  pose proof (Fp_pm T w w1 F1 P) as P1.
-  apply wbind_inv in H as [(w1' & wx & H2 & H) | (e & H2 & _)]; apply wget_inv in H2 as (E2 & ->); [|discriminate E2].
-  injection E2 as ->.
-  apply wbind_inv in H as [(x0 & wx & H2 & H) | (e & H2 & _)]; apply get_model_inv in H2 as (x0' & Hx0 & E2 & ->); [|discriminate E2].
-  injection E2 as <-.
-  apply wbind_inv in H as [(ov & wx & H2 & H) | (e & H2 & _)]; apply wlift_inv in H2 as (ov' & _ & E2 & ->); [|discriminate E2].
-  injection E2 as <-.
-  destruct ov.
-  { revert H. match goal with |- ?k w1 = _ -> _ => assert (HK : J3P k) end.
-    { apply J3P_frame; intros wb; [pose proof (frp_kill wb) as HK; fr_go|pose proof (fpp_kill wb) as HK; fp_go]. }
-    intros H. exact (HK _ _ _ H (conj B1 (conj T1 P1))). }
-  apply wbind_inv in H as [(u & w2 & H2 & H) | (e & H2 & _)]; [|discriminate H2].
-  unfold wput in H2. injection H2 as _ <-.
-  match type of H with _ ?ww = _ => set (w2 := ww) in * end.
-  assert (J2 : J3 T w2) by (apply (j3_same_nodes w1 w2); [reflexivity|reflexivity|exact (conj B1 (conj T1 P1))]).
-  assert (Hnr2 : w_nodes w2 (w_next w) = Some nr) by exact Hnr.
-  apply wbind_inv in H as [(x & wx & H2 & H) | (e & H2 & _)]; apply get_model_inv in H2 as (x' & Hx & E2 & ->); [|discriminate E2].
-  injection E2 as <-.
-  (* the tail after the caught body *)
-  assert (HTail : forall rr : out unit, J3P
+Lemma tail_j3p m base fid (rr : out unit) : J3P
     (do x3 <- get_model m;
      do w3 <- wget;
      do keep <- dfs_ids (fuel_of w3) (m_root x3);
-     kill_unreachable (w_next w) keep;;
+     kill_unreachable base keep;;
      match rr with
-     | OK _ => wret (N.of_nat (List.length (w_files w1)))
-     | ER e => drop_file (N.of_nat (List.length (w_files w1)));; wfail e
-     end)%W).
-  { intros rr. apply J3P_frame; intros wb.
-    - pose proof (frp_kill wb) as HK. pose proof (frp_drop_file wb) as HD. destruct rr; fr_go.
-    - pose proof (fpp_kill wb) as HK. pose proof (fpp_drop_file wb) as HD. destruct rr; fp_go. }
-  (* the part of the body after the first-file / merge alternative *)
-  assert (HRest : J3P
-    (fill_identifiables m t (rev (Parser.p_idents st));;
-     fill_references m t (rev (Parser.p_refs st));;
-     modify_model m (fun y => set_mfiles y (m_files y ++ [N.of_nat (List.length (w_files w1))])))%W).
-  { apply J3P_frame; intros wb.
-    - pose proof (frp_fill_identifiables wb m t) as HI. pose proof (frp_fill_references wb m t) as HR. fr_go.
-    - pose proof (fpp_fill_identifiables wb m t) as HI. pose proof (fpp_fill_references wb m t) as HR. fp_go. }
-  apply wbind_inv in H as [(rr & w3 & H2 & H) | (e & H2 & _)]; [|apply wcatch_inv in H2 as (? & _ & [=])].
-  apply wcatch_inv in H2 as (r0 & H2 & ->).
-  apply (HTail r0 _ _ _ H). clear H HTail.
-  apply wbind_inv in H2 as [(u & w4 & H3 & H4) | (e & H3 & _)]; [apply (HRest _ _ _ H4)|]; clear HRest.
-  all: rewrite Eid in H3.
-  all: destruct (is_empty (m_files x)) eqn:Eemp.
-  (* first file: the installed root is handed to the model; it carries the root type *)
-  1,3: assert (HF : forall wa ra wb,
-      (modify_node (w_next w) (fun n => set_parent n (PModel m));;
-       modify_node (w_next w) (fun n => set_files n (set_add (N.of_nat (List.length (w_files w1))) (n_files n)));;
-       modify_model m (fun y => set_root y (w_next w)))%W wa = Val (ra, wb) ->
-      J3 T wa -> w_nodes wa (w_next w) = Some nr -> J3 T wb).
-  1,3: (intros wa ra wb Hs Ja Hna;
-       apply wbind_inv in Hs as [(u1 & wa1 & Hs1 & Hs) | (e1 & Hs1 & _)];
-       apply modify_node_wset in Hs1 as (n1 & Hn1 & _ & ->); assert (n1 = nr) by congruence; subst n1;
-       (assert (Ja1 : J3 T (wset wa (w_next w) (set_parent nr (PModel m))));
-        [destruct Ja as (Ba & Ta & Pa); split; [|split];
-         [ apply (Fr_bounded wa); [|exact Ba]; apply Fr_wset; [apply Fr_refl|];
-           exists nr; split; [exact Hna|split; [reflexivity|split; [reflexivity|auto]]]
-         | apply (Fr_typed_u T wa); [|exact Ta]; apply Fr_wset; [apply Fr_refl|];
-           exists nr; split; [exact Hna|split; [reflexivity|split; [reflexivity|auto]]]
-         | intros j nj mj Hj Hp; destruct (N.eq_dec j (w_next w)) as [->|Hne];
-           [rewrite nodes_wset_eq in Hj; injection Hj as <-; cbn [n_type set_parent]; rewrite Tnr; exact Hroot
-           |rewrite nodes_wset_neq in Hj by exact Hne; exact (Pa j nj mj Hj Hp)] ]|]);
-       [|exact Ja1];
-       revert Hs; match goal with |- ?k ?ww = _ -> _ => assert (HK : J3P k) end;
-       [apply J3P_frame; intros w0; [fr_go|fp_go]|];
-       intros Hs; exact (HK _ _ _ Hs Ja1)).
-  1: exact (HF _ _ _ H3 J2 Hnr2).
-  2: exact (HF _ _ _ H3 J2 Hnr2).
-  (* merge *)
-  all: destruct Hmode as [Hfirst|Hmerge]; [rewrite (Hfirst x) in Eemp; [discriminate Eemp|]|].
-  all: try (assert (Hxw : w_models w2 = w_models w1) by reflexivity; rewrite Hxw in Hx; rewrite <- Hx0 in *).
-Abort.
+     | OK _ => wret fid
+     | ER e => drop_file fid;; wfail e
+     end)%W.
+Proof.
+  apply J3P_frame; intros wb.
+  - pose proof (frp_kill wb) as HK. pose proof (frp_drop_file wb) as HD. destruct rr; fr_go.
+  - pose proof (fpp_kill wb) as HK. pose proof (fpp_drop_file wb) as HD. destruct rr; fp_go.
+Qed.
+
+Lemma rest_j3p m t li lr fid : J3P
+    (fill_identifiables m t li;;
+     fill_references m t lr;;
+     modify_model m (fun y => set_mfiles y (m_files y ++ [fid])))%W.
+Proof.
+  apply J3P_frame; intros wb.
+  - pose proof (frp_fill_identifiables wb m t) as HI. pose proof (frp_fill_references wb m t) as HR. fr_go.
+  - pose proof (fpp_fill_identifiables wb m t) as HI. pose proof (fpp_fill_references wb m t) as HR. fp_go.
+Qed.
+
+Lemma overlap_j3p base : J3P (kill_unreachable base [];; @wfail N OverlappingDataError)%W.
+Proof. apply J3P_frame; intros wb; [pose proof (frp_kill wb) as HK; fr_go|pose proof (fpp_kill wb) as HK; fp_go]. Qed.
+
+(* the installed root is handed to an empty model: it carries the root type *)
+Lemma first_j3 m i fid nr wa ra wb :
+  et_new T (autosar_element T) = Val (n_type nr) ->
+  (modify_node i (fun n => set_parent n (PModel m));;
+   modify_node i (fun n => set_files n (set_add fid (n_files n)));;
+   modify_model m (fun y => set_root y i))%W wa = Val (ra, wb) ->
+  J3 T wa -> w_nodes wa i = Some nr -> J3 T wb.
+Proof.
+  intros Hroot Hs Ja Hna.
+  apply wbind_inv in Hs as [(u1 & wa1 & Hs1 & Hs) | (e1 & Hs1 & _)];
+    apply modify_node_wset in Hs1 as (n1 & Hn1 & _ & ->); assert (n1 = nr) by congruence; subst n1.
+  all: assert (Ja1 : J3 T (wset wa i (set_parent nr (PModel m)))).
+  1,3: destruct Ja as (Ba & Ta & Pa); split; [|split].
+  1,4: apply (Fr_bounded wa); [|exact Ba]; apply Fr_wset; [apply Fr_refl|];
+       exists nr; split; [exact Hna|split; [reflexivity|split; [reflexivity|auto]]].
+  1,3: apply (Fr_typed_u T wa); [|exact Ta]; apply Fr_wset; [apply Fr_refl|];
+       exists nr; split; [exact Hna|split; [reflexivity|split; [reflexivity|auto]]].
+  1,2: intros j nj mj Hj Hp; destruct (N.eq_dec j i) as [->|Hne];
+       [rewrite nodes_wset_eq in Hj; injection Hj as <-; exact Hroot
+       |rewrite nodes_wset_neq in Hj by exact Hne; exact (Pa j nj mj Hj Hp)].
+  2: exact Ja1.
+  revert Hs. match goal with |- ?k ?ww = _ -> _ => assert (HK : J3P k) end.
+  { apply J3P_frame; intros w0; [fr_go|fp_go]. }
+  intros Hs. exact (HK _ _ _ Hs Ja1).
+Qed.
 
 End LoadJ.
